@@ -13,7 +13,7 @@ from liesel.goose.epoch import EpochConfig, EpochType
 from liesel.goose.kernel_sequence import KernelSequence
 from liesel.goose.pytree import stack_leaves
 
-from .probes import ProbeKernel, ProbeQG, read_logs
+from .probes import BOOKED, ProbeKernel, ProbeQG, read_logs
 
 SHAPES = [(), (2,), (2, 2), (3,)]
 
@@ -29,14 +29,16 @@ def cfg_of(c):
 
 
 def build_engine(K, needs_hist, chains, seed, J, init_cfgs, included=(), excluded=(),
-                 store_kernel_states=False, error_tables=None, cap=400, via_builder=False, nq=0, prebuild=False):
+                 store_kernel_states=False, error_tables=None, cap=400, via_builder=False, nq=0, prebuild=False,
+                 error_books=None):
     """prebuild (with via_builder): the builder first builds another engine, which is run to the end and has an epoch
     appended; the engine that is returned is built afterwards from the same builder and must be unaffected."""
     keys = [f"p{k}" for k in range(1, K + 1)]
     model = gs.DictInterface(lambda s: jnp.asarray(0.0))
     kernels = []
     for k in range(1, K + 1):
-        ker = ProbeKernel([keys[k - 1]], kidx=k, cap=cap, needs_history=(k in needs_hist),
+        cls = ProbeKernel if not error_books else BOOKED[k]      # classes with their own error books (picklable)
+        ker = cls([keys[k - 1]], kidx=k, cap=cap, needs_history=(k in needs_hist),
                           all_keys=keys, error_table=None if error_tables is None else error_tables[k - 1])
         kernels.append(ker)
 
